@@ -50,6 +50,7 @@ func runC16(ctx *core.Ctx) {
 	}()
 	c16Exhaustive(ctx)
 	c16OracleExhaustive(ctx)
+	c16OracleUnderFile(ctx)
 	ctx.Res.Exhaustive = true
 	c16Random(ctx)
 	c16OracleRandom(ctx)
@@ -99,14 +100,19 @@ func c16Exhaustive(ctx *core.Ctx) {
 	file := &c16Node{Lines: []c16Line{c16Assign("A", c16Lit("x"), c16Ref("A")), c16Bare("B")}}
 	badf := &c16Node{Lines: []c16Line{c16Assign("A", c16Lit("y")), {Bad: true}}}
 	states := []st{{file, true, ""}, {file, false, ""}, {nil, true, ""}, {nil, false, ""}, {&c16Node{Dir: true}, true, ""},
-		{file, true, "raw"}, {nil, false, "raw"}, {nil, true, "raw"}, {&c16Node{Dir: true}, false, "raw"}, {badf, false, ""}}
+		{file, true, "raw"}, {nil, false, "raw"}, {nil, true, "raw"}, {&c16Node{Dir: true}, false, "raw"}, {badf, false, ""},
+		{&c16Node{NotDir: true}, false, ""}, {&c16Node{NotDir: true}, true, "raw"}}
 	for x, s1 := range states {
 		for y, s2 := range states {
 			for z, s3 := range states {
 				a := c16Args{Penv: map[string]string{"B": "pB"}, Files: map[string]c16Node{}, Discard: (x+y+z)%2 == 0}
 				svc := c16Service{Name: "s", Environment: [][2]*string{c16kv("C", nil)}}
+				a.Files["reg"] = c16Node{}
 				for n, s := range []st{s1, s2, s3} {
 					p := fmt.Sprintf("p%d", n)
+					if s.node != nil && s.node.NotDir {
+						p = fmt.Sprintf("reg/p%d", n)
+					}
 					if s.node != nil {
 						a.Files[p] = *s.node
 					}
@@ -215,15 +221,34 @@ func c16RandArgs(r *rand.Rand, malformed, forLoad bool) c16Args {
 			a.Files[p] = c16Node{Lines: c16RandLines(r, c16Keys, "@"+p[:1], malformed)}
 		}
 	}
+	under := []string{}
+	if malformed {
+		// a path under a regular file of the tree (ENOTDIR) or under nothing / a directory (ENOENT)
+		for _, p := range []string{"a.env", "d"} {
+			q := p + "/x.env"
+			if nd, ok := a.Files[p]; ok && !nd.Dir {
+				a.Files[q] = c16Node{NotDir: true}
+			}
+			under = append(under, q)
+		}
+	}
 	nsvc := 1 + r.Intn(3)
 	for i := 0; i < nsvc; i++ {
 		s := c16Service{Name: fmt.Sprintf("s%d", i), Environment: c16RandEnv(r, c16Keys), Labels: c16RandLabels(r, c16Keys), ShortFiles: r.Intn(2) == 0}
 		perm := r.Perm(len(paths))
+		used := map[string]bool{}
 		for j, n := 0, r.Intn(5); j < n; j++ {
 			p := paths[perm[j]]
 			if !forLoad && r.Intn(8) == 0 {
 				p = paths[r.Intn(len(paths))] // the same file may be listed twice
 			}
+			if malformed && r.Intn(10) == 0 {
+				p = under[r.Intn(len(under))]
+			}
+			if forLoad && used[p] {
+				continue // whole loads de-duplicate env_file entries by path (override.EnforceUnicity, C04)
+			}
+			used[p] = true
 			f := c16EnvFile{Path: p, Required: r.Intn(3) != 0}
 			if malformed && r.Intn(12) == 0 {
 				f.Format = "raw"
@@ -404,6 +429,7 @@ func c16OracleExhaustive(ctx *core.Ctx) {
 	}
 	// E3: required flag × file presence over three files (and a missing label file)
 	for pres := 0; pres < 27; pres++ {
+
 		for st := 0; st < 4; st++ {
 			for lmiss := 0; lmiss < 2; lmiss++ {
 				o := c16OracleArgs{Penv: map[string]string{"K2": "P.K2"}, Keys: []string{"K1", "K2"}, Environment: c16EnvState("K1", st)}
@@ -419,6 +445,25 @@ func c16OracleExhaustive(ctx *core.Ctx) {
 					{Path: "LF2.lbl", Present: lmiss == 0, Required: true, Lines: c16FileLine("LF2", "K1", 3, "K1")}}
 				add("oracle-required-x-presence", o)
 			}
+		}
+	}
+}
+
+// the recorded finding (Neg.missing_optional_skipped_false): an optional env file under a regular file
+func c16OracleUnderFile(ctx *core.Ctx) {
+	for pos := 0; pos < 3; pos++ {
+		for st := 0; st < 4; st++ {
+			o := c16OracleArgs{Penv: map[string]string{"K2": "P.K2"}, Keys: []string{"K1", "K2"}, Environment: c16EnvState("K1", st), NoLoad: st%2 == 1, Discard: st >= 2}
+			for f := 0; f < 3; f++ {
+				tag := fmt.Sprintf("F%d", f+1)
+				l := c16Layer{Path: tag + ".env", Present: true, Required: true, Lines: c16FileLine(tag, "K1", 3, "K2")}
+				if f == pos {
+					l.Present, l.Required, l.UnderFile = false, false, true
+				}
+				o.EnvLayers = append(o.EnvLayers, l)
+			}
+			ctx.Count("oracle-optional-under-regular-file")
+			ctx.Add("c16.oracle", o)
 		}
 	}
 }
